@@ -5,6 +5,7 @@
   it; the theorem says `Execute` computes `den`, never failing, on every
   document.
 -/
+import Proofs.GenIndex
 import Props.Tables
 import Spec.Semantics
 import Jmes.Interp
@@ -58,6 +59,19 @@ theorem indexArr_eq_elemAt (xs : List (Val N)) (i : Int) : indexArr xs i = elemA
       simp [hl, h1, h2]
     · have : ¬ (i + (xs.length : Int) ≥ 0) := by omega
       simp [hl, this]
+
+/-- ON THE CODE AS WRITTEN: `GenSlice.indexSel` is the translation (tools/gotolean, on every run) of the
+    index clause of `Execute` in interpreter.go — the statements under `case ASTIndex:` for a `[]interface{}`.
+    For every length of a Go slice and every int64 index, reading the position it selects is the specification's
+    `elemAt` (negative indices count from the end, out of range is null). -/
+theorem C01_translated_index_clause (xs : List (Val N)) (i : Int) (hlen : (xs.length : Int) ≤ 9223372036854775807)
+    (hi : -9223372036854775808 ≤ i ∧ i ≤ 9223372036854775807) :
+    (match GenSlice.indexSel xs.length i with
+      | some k => xs.getD k.toNat .null
+      | none => .null) = elemAt xs i := by
+  exact (gen_index_is_indexArr xs i hlen hi).symm.trans (indexArr_eq_elemAt xs i)
+
+example : GenSlice.indexSel 3 (-1) = some 2 ∧ GenSlice.indexSel 3 3 = none ∧ GenSlice.indexSel 3 (-4) = none ∧ GenSlice.indexSel 0 0 = none := by decide
 
 mutual
 /-- Conformance: on every document, the core fragment evaluates — without
